@@ -9,7 +9,7 @@
 # Writes /verif/seeded/<id>/confirm.json and copies patch/demo/notes there.
 # The worktree is removed afterwards.  Exit 0 = all three confirmed.
 set -u
-id="$1"; src="$2"
+id="$1"; src="$2"; pkgover="${3:-}"   # optional 3rd argument: package directory of the demonstration
 export PATH=/root/go/pkg/mod/golang.org/toolchain@v0.0.1-go1.24.0.linux-amd64/bin:$PATH
 export GOFLAGS=-mod=mod GOPROXY=off GOSUMDB=off GOTOOLCHAIN=local
 dst=/verif/seeded/$id
@@ -27,6 +27,7 @@ if [ -z "$demos" ]; then echo "no demonstration"; exit 2; fi
 pkgdir_of() {
 	p=$(grep -m1 '^package ' "$1" | awk '{print $2}')
 	p=${p%_test}
+	[ -n "$pkgover" ] && p="$pkgover"
 	echo "$p"
 }
 run_demos() { # prints PASS or FAIL
